@@ -397,6 +397,16 @@ Definition check_slp_tensor (tol V : Z) eos T B lp hyp (impl : option (list (lis
 Definition check_slp_ps (tol V : Z) data bs sidx uidx N hyp (impl : list Z) : bool :=
   list_closeb tol (slp_ps Z.add 0%Z V data bs sidx uidx N hyp) impl.
 
+(* does torch's PackedSequence of the padded log-softmax lp (time x batch x classes) with lengths
+   lens0 look as the packed-input theorems describe it? (data, batch_sizes) vs pack_data of the
+   columns re-ordered by sorted_indices *)
+Definition check_pack (tol : Z) (lp : list (list (list Z))) (lens0 : list nat)
+  (sidx : option (list nat)) (data : list (list Z)) (bs : list nat) : bool :=
+  let s := match sidx with Some s => s | None => seq 0 (length lens0) end in
+  let ls := map (fun j => nth j lens0 0) s in
+  mat_closeb tol (pack_data (index_select_cols [] s lp) ls) data &&
+  nlist_eqb (map (fun t => sumn (map (fun l => b2n (t <? l)) ls)) (seq 0 (list_max ls))) bs.
+
 (* a language model given as a finite table ((n, prefix), row) *)
 Fixpoint lm_of_table (tab : list (nat * list Z * list Z)) (n : nat) (p : list Z) : list Z :=
   match tab with
